@@ -13,6 +13,23 @@ claim("C01", "proof", "panic-site census over MIR (Assert terminators, partial/u
       "usize is 32 or 64 bits. User impls of EndianParse/ParseAt are out of scope. Non-termination is C16.",
       "DESIGN.md 5/C01")
 
+claim("C04", "proof", "template rule over value-numbered outcomes of the six EndianParse read methods; exact evaluation of is_little; impl-table and alias facts",
+      "Each read method is expanded into its outcomes (per path condition); the success outcomes must be exactly from_le/from_be_bytes of data[off..off+SIZE] "
+      "selected by is_little, the offset is stored only there and equals off+SIZE, every error outcome leaves it untouched. All six methods x all outcomes are checked, "
+      "so the property holds for every buffer/offset modulo the trusted semantics of four core functions.",
+      "Trusted: <[u8]>::get, TryInto<[u8;N]>, checked_add, from_{le,be}_bytes. Out-of-crate EndianParse impls that override read methods are out of scope.",
+      "DESIGN.md 5/C04")
+claim("C06", "proof", "effect analysis over the resolved call graph (callee-defining crate, ADT-defining crate of every local) + feature-matrix type-check + dependency facts",
+      "Every function reachable from the slice-parser API may only call into `core` (which has no allocator) and hold `core`/own types, in the default and in the no-features "
+      "configuration (all distinct configurations in the thorough tier); all 8 feature subsets type-check; without features the crate graph is {core, compiler_builtins}.",
+      "Trusted: `core` does not allocate; rustc's callee resolution. Debug/Display/Error impls and the stream parser are excluded roots (listed in evidence). User trait impls out of scope.",
+      "DESIGN.md 5/C06")
+claim("C10", "proof", "exact switch-structure evaluation of from_ei_data over the u8 domain; outcome provenance of verify_ident/parse_ident; call-site provenance in both parsers",
+      "Accepted EI_DATA sets, result variants and error payloads of the three specs are computed exactly from the MIR switch structure (whole u8 domain, symbolically); "
+      "every outcome of verify_ident/parse_ident is matched to its guard and payload bytes; both parsers pass file bytes [0,16) to parse_ident::<E> with the handle's E.",
+      "Trusted: slice equality/indexing in core. 'AnyEndian behaves as the fixed spec afterwards' rests on C04 (no overridden read method, is_little agrees).",
+      "DESIGN.md 5/C10")
+
 for pid in ["C01", "C02", "C03", "C04", "C05", "C06", "C07", "C08", "C09", "C10", "C11", "C12", "C13", "C14", "C15", "C16", "C17", "C18", "C20"]:
     if pid not in CLAIMS:
         na(pid, "static rule designed (DESIGN.md section 5) but its checker is not built yet in this revision; not claimed until it runs silent on the tree and fires on control mutants")
